@@ -63,6 +63,13 @@ func enumerateC07(t *testing.T, seed uint64, emit emitFn) {
 			ops = append(ops, Op{K: "preCommit", Fail: true})
 			tx.Ops = append(ops, tx.Ops[k:]...)
 		})
+		// the failing action is not the last one registered: a succeeding one follows it
+		variant("enum-F4", func(p *Plan, tx *TxPlan) {
+			ops := append([]Op{}, tx.Ops[:k]...)
+			ops = append(ops, Op{K: "preCommit", Fail: true})
+			ops = append(ops, tx.Ops[k:]...)
+			tx.Ops = append(ops, Op{K: "preCommit"})
+		})
 	}
 	seenEv := map[string]bool{}
 	for _, e := range info.Events {
